@@ -1,1 +1,55 @@
-import RosedVerif.Model.Ops
+/-
+C11 — Paragraphs are split, transformed independently and rejoined losslessly.
+-/
+import RosedVerif.Model.InstAFacts
+import RosedVerif.Model.ParaLemmas
+namespace RosedVerif.Props
+open RosedVerif
+
+/-- returning each piece unchanged reproduces the editor exactly — for ALL separator pairs,
+including the ambiguous case where paragraph and line separators overlap -/
+theorem C11_identity (ed : Editor Int) (o : Options Int) :
+    ed.applyParasM cxA (fun _ p _ _ => pure [p]) o = .ok ed := applyParas_id' cxA ed o
+
+/-- the pieces handed to the callback rejoin to the text -/
+theorem C11_pieces_rejoin (text : List Int) (o : Options Int) :
+    joinWith o.paraSep (paragraphsOf text o) = text := joinWith_paragraphsOf text o
+
+/-- the callback is invoked exactly once per piece — k+1 times for k separators —, in order, with
+indexes 0..k, with the documented separator prefix/suffix (none before the first / after the last) -/
+theorem C11_calls (ed : Editor Int)
+    (op : Nat → List Int → List Int → List Int → R (List (List Int))) (o : Options Int) :
+    ed.applyParasM cxA op o =
+      ((paraCallsOf ed.text (o.withDefaults cxA)).mapM (fun c => op c.1 c.2.1 c.2.2.1 c.2.2.2) >>=
+        fun outs => pure (ed.withText (joinWith (o.withDefaults cxA).paraSep outs.flatten))) :=
+  applyParasM_eq_mapM cxA ed op o
+
+theorem C11_call_count (text : List Int) (o : Options Int) :
+    (paraCallsOf text o).length = (splitOn text o.paraSep).length := paraCallsOf_length text o
+
+theorem C11_call_indexes (lineSep prevSuffix nextPrefix : List Int) (ambig : Bool) (cur : List Int)
+    (rest : List (List Int)) :
+    (paraCalls lineSep prevSuffix nextPrefix ambig 0 cur rest).map (·.1) = List.range' 0 (rest.length + 1) :=
+  paraCalls_indexes lineSep prevSuffix nextPrefix ambig 0 cur rest
+
+theorem C11_call_affixes (lineSep prevSuffix nextPrefix : List Int) (ambig : Bool) (cur : List Int)
+    (rest : List (List Int)) :
+    (paraCalls lineSep prevSuffix nextPrefix ambig 0 cur rest).map (·.2.2.1) =
+        (List.range' 0 (rest.length + 1)).map (fun i => if i = 0 then [] else nextPrefix) ∧
+    (paraCalls lineSep prevSuffix nextPrefix ambig 0 cur rest).map (·.2.2.2) =
+        List.replicate rest.length prevSuffix ++ [[]] :=
+  ⟨paraCalls_prefixes _ _ _ _ _ _ _, paraCalls_suffixes _ _ _ _ _ _ _⟩
+
+/-- homomorphism skeleton: a per-paragraph operation `f` applied in paragraph mode yields the
+separator-join of the per-paragraph results; every paragraph separator stays in place -/
+theorem C11_homomorphism (ed : Editor Int) (f : List Int → R (List Int)) (o : Options Int) :
+    ed.applyParasM cxA (fun _ p _ _ => do pure [← f p]) o =
+      ((paragraphsOf ed.text (o.withDefaults cxA)).mapM f >>=
+        fun rs => pure (ed.withText (joinWith (o.withDefaults cxA).paraSep rs))) :=
+  applyParasM_single cxA ed f o
+
+/-! non-vacuity: the ambiguous sequence paraSep·lineSep with the default separators -/
+example : paragraphsOf [0x61, 0xa, 0xa, 0xa, 0x62] { lineSep := [0xa], paraSep := [0xa, 0xa] } =
+    [[0x61, 0xa], [0x62]] := by decide
+
+end RosedVerif.Props
